@@ -150,7 +150,8 @@ ConvertOK(i, k) == CFns[((k - 1) % 5) + 1] \in {"with_base", "with_base_and_prec
 
 \* ------------------------------------------------------------------ a base and its power, the root not being 2
 \* i: pair, j: exponent (every residue of the power, both signs) , k: significand pattern (5) x function (2) x precision (3)
-PowPairs == << <<3, 9>>, <<9, 3>>, <<3, 27>>, <<6, 36>>, <<36, 6>> >>
+\* (and power-of-two bases that are NOT powers of each other: 4 / 8 / 32)
+PowPairs == << <<3, 9>>, <<9, 3>>, <<3, 27>>, <<6, 36>>, <<36, 6>>, <<4, 32>>, <<32, 4>>, <<4, 8>>, <<8, 32>> >>
 PowBaseCase(i, j, k) ==
   LET B == PowPairs[i][1]
       T == PowPairs[i][2]
@@ -208,7 +209,7 @@ FromFCase(i, j, k) ==
 
 \* ------------------------------------------------------------------ enumeration
 Classes == {"grammar", "roundtrip", "precprint", "convert", "fromf", "wprec", "powbase", "oddhalf"}
-NI(c) == CASE c = "grammar" -> 6 [] c = "roundtrip" -> 6 [] c = "precprint" -> IF Thorough THEN 6 ELSE 3 [] c = "convert" -> 36 [] c = "fromf" -> 2 [] c = "wprec" -> 6 [] c = "powbase" -> 5 [] c = "oddhalf" -> 3
+NI(c) == CASE c = "grammar" -> 6 [] c = "roundtrip" -> 6 [] c = "precprint" -> IF Thorough THEN 6 ELSE 3 [] c = "convert" -> 36 [] c = "fromf" -> 2 [] c = "wprec" -> 6 [] c = "powbase" -> 9 [] c = "oddhalf" -> 3
 NJ(c) == CASE c = "grammar" -> 42 [] c = "roundtrip" -> 10 * Len(RTExps) [] c = "precprint" -> 63
            [] c = "convert" -> 5 * Len(CExps) [] c = "fromf" -> 40 [] c = "wprec" -> 23 [] c = "powbase" -> 15 [] c = "oddhalf" -> 14
 NK(c) == CASE c = "grammar" -> 153 [] c = "roundtrip" -> IF Thorough THEN 6 ELSE 3 [] c = "precprint" -> 252
